@@ -15,8 +15,8 @@ ASSUMPTIONS = ['ridges are 3 map rows thick with the maximum in the middle row (
                'with end-point responses (overlapping one ridge pixel at each end) the ridge is at least 9 px long', 'expected end points ds*(x0-2), ds*(x1+2) within 1.5*ds; vertical position within 0.9*ds; heights within 0.5*ds',
                'lines of the two runs of the rotation clause are matched by nearest end points (the engine orders lines with random jitter)']
 N = {'quick': 340, 'thorough': 17000}
-CLASSES = ['maps', 'maps', 'maps_sloped', 'maps_endpoints', 'maps_many', 'detect_rot', 'detect_rot', 'maps_short', 'detect_columns', 'columns_separator']
-REQUIRED = ['separator_pages', 'column_pages', 'same_row_pairs', 'parse_calls', 'ridges_checked', 'sloped_ridges', 'endpoint_ridges', 'short_ridges', 'detect_pairs', 'rotated_lines_compared', 'rot1', 'rot2', 'rot3', 'regions_compared']
+CLASSES = ['maps', 'maps', 'maps_sloped', 'maps_endpoints', 'maps_many', 'detect_rot', 'detect_rot', 'maps_short', 'detect_columns', 'columns_separator', 'detect_adaptive']
+REQUIRED = ['repeated_decodes_of_one_array', 'adaptive_detections', 'adaptive_proposals', 'rotated_pages_with_sides_not_multiple_of_ds', 'separator_pages', 'column_pages', 'same_row_pairs', 'parse_calls', 'ridges_checked', 'sloped_ridges', 'endpoint_ridges', 'short_ridges', 'detect_pairs', 'rotated_lines_compared', 'rot1', 'rot2', 'rot3', 'regions_compared']
 SHARDS = {'quick': 8, 'thorough': 16}
 # 'within one pixel': the engine's un-rotation uses W - y where the exact inverse is W - 1 - y (exactly 1 px apart); outlines are float32
 # arrays, so the observed difference can exceed 1 by float32 round-off (1.0000038 seen at x = 290 in the thorough tier)
@@ -31,6 +31,10 @@ def setup(ctx):
     p = stubs.make_parsenet(ctx.tmpdir + '/parsenet.pt')
     with contextlib.redirect_stdout(io.StringIO()):
         ctx.eng = LayoutEngine(p, torch.device('cpu'), downsample=2, adaptive_downsample=False, detection_threshold=0.2)
+        # rotated analysis at coarser resolutions (page sides that are not multiples of the factor), a decoder with a non-default end-point weight
+        ctx.eng_ds = {ds: LayoutEngine(p, torch.device('cpu'), downsample=ds, adaptive_downsample=False, detection_threshold=0.2) for ds in (4, 8)}
+        ctx.eng_lew = LayoutEngine(p, torch.device('cpu'), downsample=2, adaptive_downsample=False, detection_threshold=0.2, line_end_weight=2.0)
+        ctx.parsenet_path, ctx.LayoutEngine, ctx.torch = p, LayoutEngine, torch
         ps = stubs.make_parsenet_with_separators(ctx.tmpdir + '/parsenet_sep.pt')
         ctx.eng_sep = {ds: LayoutEngine(ps, torch.device('cpu'), downsample=ds, adaptive_downsample=False, detection_threshold=0.2) for ds in (2, 4)}
 
@@ -77,7 +81,19 @@ def gen(rng, i, ctx):
             for x in xs:
                 y0 = int(rng.integers(30, Himg // 3)); y1 = int(rng.integers(y0 + 80, Himg - 30))
                 strokes.append(('v', x, y0, y1))
-        return {'cls': cls, 'size': [Himg, Wimg], 'rot': rot, 'strokes': strokes, 'asc': int(rng.integers(8, 16)), 'desc': int(rng.integers(3, 7))}
+        case = {'cls': cls, 'size': [Himg, Wimg], 'rot': rot, 'strokes': strokes, 'asc': int(rng.integers(8, 16)), 'desc': int(rng.integers(3, 7))}
+        # drawn last: in a third of the cases the page is analysed at a coarser resolution and its sides are not multiples of the factor
+        if rng.random() < 0.35:
+            case['ds'] = int(rng.choice([4, 8]))
+            case['size'] = [Himg + int(rng.integers(1, case['ds'])), Wimg + int(rng.integers(1, case['ds']))]
+        return case
+    if cls == 'detect_adaptive':
+        # adaptive resolution: tall text on a page analysed with a configured factor of 7; the proposed factor is clamped to 8, which is within 20 % of 7,
+        # so the first maps are kept (and so must be their factor)
+        Himg, Wimg = int(rng.integers(640, 800)), int(rng.integers(800, 1000))
+        ys = list(range(90, Himg - 90, int(rng.integers(110, 150))))[:int(rng.integers(3, 6))]
+        strokes = [('h', y, int(rng.integers(40, 120)), int(rng.integers(Wimg - 250, Wimg - 40))) for y in ys]
+        return {'cls': cls, 'size': [Himg, Wimg], 'strokes': strokes, 'asc': int(rng.integers(22, 38)), 'desc': int(rng.integers(5, 9)), 'downsample': float(rng.choice([7, 7.5, 6.9]))}
     H, W = int(rng.integers(40, 401)), int(rng.integers(60, 601))
     ridges = []
     y = int(rng.integers(12, 20))
@@ -137,6 +153,8 @@ def check(case, mon, ctx):
         return check_columns(case, mon, ctx)
     if case['cls'] == 'columns_separator':
         return check_separator(case, mon, ctx)
+    if case['cls'] == 'detect_adaptive':
+        return check_adaptive(case, mon, ctx)
     eng = ctx.eng
     ds = case['ds']
     maps, rows = build_maps(case)
@@ -185,6 +203,49 @@ def check(case, mon, ctx):
         tt = np.asarray(t[j], dtype=np.float64) / ds
         if tt[:, 1].min() > bb[:, 1].min() - 0.5 * hh[0] or tt[:, 1].max() < bb[:, 1].max() + 0.5 * hh[1]:
             mon.violation('outline-encloses-the-baseline-band', dict(w, outline=t[j]))
+    # history: the SAME maps array decoded several times by a decoder with a non-default end-point weight gives the same lines every time
+    m2 = maps.copy()
+    for xs, ys in rows:
+        k_ = min(8, len(xs) // 3)
+        if k_:
+            m2[ys[:k_], xs[:k_], 3] = 0.06
+            m2[ys[-k_:], xs[-k_:], 3] = 0.06            # weak, wide end-point responses
+    res = []
+    with contextlib.redirect_stdout(io.StringIO()):
+        for _ in range(4):
+            bb_, hh_, tt_ = ctx.eng_lew.parse(m2, ds)
+            res.append(sorted(np.round(np.asarray(x, dtype=np.float64), 3).tolist() for x in bb_))      # (the decoder returns the lines in no particular order)
+    mon.count('repeated_decodes_of_one_array')
+    if any(r != res[0] for r in res[1:]):
+        kbad = next(i for i, r in enumerate(res) if r != res[0])
+        mon.violation('decoding-the-same-maps-again-gives-the-same-lines', {'line_end_weight': 2.0, 'decode_number': kbad + 1, 'lines_first': len(res[0]), 'lines_then': len(res[kbad]),
+                      'first_baseline_first': res[0][:1], 'first_baseline_then': res[kbad][:1]})
+
+
+def check_adaptive(case, mon, ctx):
+    """LayoutEngine.detect with adaptive resolution on tall text: the returned coordinates are those of the strokes in the image"""
+    Himg, Wimg = case['size']
+    hl = [(s[1], s[2], s[3]) for s in case['strokes']]
+    img = ctx.stubs.stroke_image(hl, [], H=Himg, W=Wimg, asc=case['asc'], desc=case['desc'], half=16, hthick=12)
+    with contextlib.redirect_stdout(io.StringIO()):
+        eng = ctx.LayoutEngine(ctx.parsenet_path, ctx.torch.device('cpu'), downsample=case['downsample'], adaptive_downsample=True, detection_threshold=0.2)
+        first = eng.parsenet.last_downsample
+        pa, ba, ha, ta = eng.detect(img.copy(), rot=0)
+    mon.count('adaptive_detections')
+    mon.mark_nontrivial()
+    w = {'size': case['size'], 'configured_downsample': case['downsample'], 'factor_left_for_the_next_page': float(eng.parsenet.last_downsample), 'strokes': case['strokes'], 'ascender': case['asc']}
+    if eng.parsenet.last_downsample != first:
+        mon.count('adaptive_proposals')
+    if len(ba) != len(hl):
+        mon.violation('one-line-per-ridge', dict(w, lines=len(ba)))
+        return
+    tol = 8 + 2
+    for b in ba:
+        b = np.asarray(b, dtype=np.float64)
+        best = min(max(np.abs(b[:, 1] - y).max(), abs(b[:, 0].min() - x0) - 3 * 8, abs(b[:, 0].max() - x1) - 3 * 8) for y, x0, x1 in hl)
+        mon.observe_max('adaptive_distance_to_stroke_px', best)
+        if best > tol:
+            mon.violation('coordinates-match-the-map-scaled-by-its-factor', dict(w, baseline=b, distance=float(best)))
 
 
 def inverse(pts, k, H, W):
@@ -201,12 +262,16 @@ def inverse(pts, k, H, W):
 
 
 def check_rot(case, mon, ctx):
-    eng = ctx.eng
+    ds_ = case.get('ds', 2)
+    eng = ctx.eng if ds_ == 2 else ctx.eng_ds[ds_]
     Himg, Wimg = case['size']
     k = case['rot']
     hl = [(s[1], s[2], s[3]) for s in case['strokes'] if s[0] == 'h']
     vl = [(s[1], s[2], s[3]) for s in case['strokes'] if s[0] == 'v']
-    img = ctx.stubs.stroke_image(hl, vl, H=Himg, W=Wimg, asc=case['asc'], desc=case['desc'], half=8)
+    th = 2 if ds_ == 2 else 2 * ds_            # strokes thick enough to give a ridge of about three map rows at this resolution
+    img = ctx.stubs.stroke_image(hl, vl, H=Himg, W=Wimg, asc=case['asc'], desc=case['desc'], half=max(8, th + 2), vthick=th, hthick=th)
+    if ds_ != 2:
+        mon.count('rotated_pages_with_sides_not_multiple_of_ds')
     with contextlib.redirect_stdout(io.StringIO()):
         pa, ba, ha, ta = eng.detect(img.copy(), rot=k)
         pr, br, hr, tr = eng.detect(np.ascontiguousarray(np.rot90(img, k=k)), rot=0)
@@ -239,13 +304,14 @@ def check_rot(case, mon, ctx):
         # and the line really lies on a stroke of the ORIGINAL image
         best = np.inf
         for s in case['strokes']:
+            me = 3 * ds_            # the decoder extends a line by two map pixels at each end (+ one for the resampling)
             if s[0] == 'h':
-                dist = max(np.abs(b[:, 1] - s[1]).max(), max(0, s[2] - 6 - b[:, 0].min()), max(0, b[:, 0].max() - s[3] - 6))
+                dist = max(np.abs(b[:, 1] - s[1]).max(), max(0, s[2] - me - b[:, 0].min()), max(0, b[:, 0].max() - s[3] - me))
             else:
-                dist = max(np.abs(b[:, 0] - s[1]).max(), max(0, s[2] - 6 - b[:, 1].min()), max(0, b[:, 1].max() - s[3] - 6))
+                dist = max(np.abs(b[:, 0] - s[1]).max(), max(0, s[2] - me - b[:, 1].min()), max(0, b[:, 1].max() - s[3] - me))
             best = min(best, dist)
         mon.observe_max('distance_to_stroke_px', best)
-        if best > 2 * 2 + 2:
+        if best > 2 * ds_ + 2:
             mon.violation('rotated-analysis-returns-original-coordinates', dict(w, what='baseline is not on a stroke of the original image', baseline=b, strokes=case['strokes'], distance=float(best)))
     # regions
     exp_p = [inverse(p, k, Himg, Wimg) for p in pr]
